@@ -259,6 +259,103 @@ Definition set_nth_state (S : b2sem) (idx : nat) (f : b2state -> b2state) : b2se
   mkSem (m_sorts S) (m_nodes S) (m_statemap S) (m_nin S) (update_nth idx f (m_states S))
         (m_outputs S) (m_bads S) (m_constraints S).
 
+Definition with_sorts (S : b2sem) (m : PM.t ty) : b2sem :=
+  mkSem m (m_nodes S) (m_statemap S) (m_nin S) (m_states S) (m_outputs S) (m_bads S) (m_constraints S).
+
+Definition dummy_b2state : b2state := {| ss_sort := TBV 1; ss_init := None; ss_next := None |}.
+
+Definition sem_sort_line (S : b2sem) (toks : list string) (id : N) : b2res b2sem :=
+  _ <~ need toks 3 ;;
+  if seq (tokn toks 2) "bitvec" then
+    _ <~ need toks 4 ;; w <~ s_num (tokn toks 3) ;;
+    if w =? 0 then B2Err B2ZeroWidth else B2Ok (with_sorts S (PM.add (key id) (TBV w) (m_sorts S)))
+  else if seq (tokn toks 2) "array" then
+    _ <~ need toks 5 ;; it <~ s_sort S (tokn toks 3) ;; dt <~ s_sort S (tokn toks 4) ;;
+    match it, dt with
+    | TBV iw, TBV dw => B2Ok (with_sorts S (PM.add (key id) (TArr iw dw) (m_sorts S)))
+    | _, _ => B2Err B2IllSorted
+    end
+  else B2Err B2Syntax.
+
+Definition sem_input_line (val : b2val) (S : b2sem) (toks : list string) (id : N) : b2res b2sem :=
+  _ <~ need toks 3 ;; t <~ s_sort S (tokn toks 2) ;;
+  let v := sem_symbol_value t (in_bv val (m_nin S)) (in_arr val (m_nin S)) in
+  B2Ok (mkSem (m_sorts S) (PM.add (key id) v (m_nodes S)) (m_statemap S) (Datatypes.S (m_nin S)) (m_states S)
+              (m_outputs S) (m_bads S) (m_constraints S)).
+
+Definition sem_state_line (val : b2val) (S : b2sem) (toks : list string) (id : N) : b2res b2sem :=
+  _ <~ need toks 3 ;; t <~ s_sort S (tokn toks 2) ;;
+  let k := List.length (m_states S) in
+  let v := sem_symbol_value t (st_bv val k) (st_arr val k) in
+  B2Ok (mkSem (m_sorts S) (PM.add (key id) v (m_nodes S)) (PM.add (key id) k (m_statemap S)) (m_nin S)
+              (m_states S ++ [{| ss_sort := t; ss_init := None; ss_next := None |}])
+              (m_outputs S) (m_bads S) (m_constraints S)).
+
+Definition s_state (S : b2sem) (tok : string) : b2res nat :=
+  match parse_line_id tok with
+  | Some (sid, false) => s_opt (PM.find (key sid) (m_statemap S)) B2Syntax
+  | _ => B2Err B2Syntax
+  end.
+
+(** an array state may be initialised by a bit-vector of its element sort: every element gets that value *)
+Definition sem_init_next_line (S : b2sem) (toks : list string) (is_init : bool) : b2res b2sem :=
+  _ <~ need toks 5 ;; t <~ s_sort S (tokn toks 2) ;;
+  idx <~ s_state S (tokn toks 3) ;;
+  let st_sort := ss_sort (nth idx (m_states S) dummy_b2state) in
+  if negb (ty_eqb st_sort t) then B2Err B2IllSorted else
+  v <~ s_node S (tokn toks 4) ;;
+  v' <~ (match st_sort, v with
+         | TArr iw dw, VBV w a =>
+             if is_init && (w =? dw) then B2Ok (VArr iw dw (fun _ => a)) else B2Err B2IllSorted
+         | _, _ => check_sort st_sort v
+         end) ;;
+  B2Ok (set_nth_state S idx (fun s => if is_init
+                                      then {| ss_sort := ss_sort s; ss_init := Some v'; ss_next := ss_next s |}
+                                      else {| ss_sort := ss_sort s; ss_init := ss_init s; ss_next := Some v' |})).
+
+Definition sem_output_line (S : b2sem) (toks : list string) : b2res b2sem :=
+  _ <~ need toks 3 ;; v <~ s_node S (tokn toks 2) ;;
+  B2Ok (mkSem (m_sorts S) (m_nodes S) (m_statemap S) (m_nin S) (m_states S)
+              (m_outputs S ++ [v]) (m_bads S) (m_constraints S)).
+
+Definition sem_prop_line (S : b2sem) (toks : list string) (is_bad : bool) : b2res b2sem :=
+  _ <~ need toks 3 ;; v <~ s_node S (tokn toks 2) ;;
+  if negb (ty_eqb (sort_of_value v) (TBV 1)) then B2Err B2PropWidth
+  else if is_bad then
+    B2Ok (mkSem (m_sorts S) (m_nodes S) (m_statemap S) (m_nin S) (m_states S)
+                (m_outputs S) (m_bads S ++ [v]) (m_constraints S))
+  else
+    B2Ok (mkSem (m_sorts S) (m_nodes S) (m_statemap S) (m_nin S) (m_states S)
+                (m_outputs S) (m_bads S) (m_constraints S ++ [v])).
+
+Definition sem_const_line (S : b2sem) (toks : list string) (id : N) (op : string) : b2res b2sem :=
+  _ <~ need toks 3 ;; t <~ s_sort S (tokn toks 2) ;;
+  match t with
+  | TArr _ _ => B2Err B2IllSorted
+  | TBV w =>
+      a <~ (if seq op "zero" then B2Ok 0
+            else if seq op "one" then B2Ok 1
+            else if seq op "ones" then B2Ok (2 ^ w - 1)
+            else
+              _ <~ need toks 4 ;;
+              sem_const (if seq op "const" then 2 else if seq op "constd" then 10 else 16) w (tokn toks 3)) ;;
+      B2Ok (add_node S id (VBV w a))
+  end.
+
+Definition sem_unary_line (S : b2sem) (toks : list string) (id : N) (op : string) : b2res b2sem :=
+  _ <~ need toks 4 ;; t <~ s_sort S (tokn toks 2) ;; a <~ s_node S (tokn toks 3) ;;
+  r <~ sem_unary op toks a ;; r' <~ check_sort t r ;; B2Ok (add_node S id r').
+
+Definition sem_binary_line (S : b2sem) (toks : list string) (id : N) (op : string) : b2res b2sem :=
+  _ <~ need toks 5 ;; t <~ s_sort S (tokn toks 2) ;;
+  a <~ s_node S (tokn toks 3) ;; b <~ s_node S (tokn toks 4) ;;
+  r <~ sem_binary op a b ;; r' <~ check_sort t r ;; B2Ok (add_node S id r').
+
+Definition sem_ternary_line (S : b2sem) (toks : list string) (id : N) (op : string) : b2res b2sem :=
+  _ <~ need toks 6 ;; t <~ s_sort S (tokn toks 2) ;;
+  a <~ s_node S (tokn toks 3) ;; b <~ s_node S (tokn toks 4) ;; c <~ s_node S (tokn toks 5) ;;
+  r <~ sem_ternary op a b c ;; r' <~ check_sort t r ;; B2Ok (add_node S id r').
+
 Definition sem_line (val : b2val) (S : b2sem) (toks : list string) : b2res b2sem :=
   match toks with
   | [] => B2Ok S
@@ -268,89 +365,19 @@ Definition sem_line (val : b2val) (S : b2sem) (toks : list string) : b2res b2sem
           _ <~ need toks 2 ;;
           let op := tokn toks 1 in
           if str_mem op unsupported_ops then B2Err B2Unsupported
-          else if seq op "sort" then
-            _ <~ need toks 3 ;;
-            if seq (tokn toks 2) "bitvec" then
-              _ <~ need toks 4 ;; w <~ s_num (tokn toks 3) ;;
-              if w =? 0 then B2Err B2ZeroWidth
-              else B2Ok (mkSem (PM.add (key id) (TBV w) (m_sorts S)) (m_nodes S) (m_statemap S) (m_nin S) (m_states S)
-                              (m_outputs S) (m_bads S) (m_constraints S))
-            else if seq (tokn toks 2) "array" then
-              _ <~ need toks 5 ;; it <~ s_sort S (tokn toks 3) ;; dt <~ s_sort S (tokn toks 4) ;;
-              match it, dt with
-              | TBV iw, TBV dw =>
-                  B2Ok (mkSem (PM.add (key id) (TArr iw dw) (m_sorts S)) (m_nodes S) (m_statemap S) (m_nin S) (m_states S)
-                             (m_outputs S) (m_bads S) (m_constraints S))
-              | _, _ => B2Err B2IllSorted
-              end
-            else B2Err B2Syntax
-          else if seq op "input" then
-            _ <~ need toks 3 ;; t <~ s_sort S (tokn toks 2) ;;
-            let v := sem_symbol_value t (in_bv val (m_nin S)) (in_arr val (m_nin S)) in
-            B2Ok (mkSem (m_sorts S) (PM.add (key id) v (m_nodes S)) (m_statemap S) (Datatypes.S (m_nin S)) (m_states S)
-                       (m_outputs S) (m_bads S) (m_constraints S))
-          else if seq op "state" then
-            _ <~ need toks 3 ;; t <~ s_sort S (tokn toks 2) ;;
-            let k := List.length (m_states S) in
-            let v := sem_symbol_value t (st_bv val k) (st_arr val k) in
-            B2Ok (mkSem (m_sorts S) (PM.add (key id) v (m_nodes S)) (PM.add (key id) k (m_statemap S)) (m_nin S)
-                       (m_states S ++ [{| ss_sort := t; ss_init := None; ss_next := None |}])
-                       (m_outputs S) (m_bads S) (m_constraints S))
-          else if seq op "init" || seq op "next" then
-            _ <~ need toks 5 ;; t <~ s_sort S (tokn toks 2) ;;
-            idx <~ match parse_line_id (tokn toks 3) with
-                   | Some (sid, false) => s_opt (PM.find (key sid) (m_statemap S)) B2Syntax
-                   | _ => B2Err B2Syntax
-                   end ;;
-            let st_sort := ss_sort (nth idx (m_states S) {| ss_sort := TBV 1; ss_init := None; ss_next := None |}) in
-            if negb (ty_eqb st_sort t) then B2Err B2IllSorted else
-            v <~ s_node S (tokn toks 4) ;;
-            (* an array state may be initialised by a bit-vector of its element sort: every element gets that value *)
-            v' <~ (match st_sort, v with
-                   | TArr iw dw, VBV w a =>
-                       if seq op "init" && (w =? dw) then B2Ok (VArr iw dw (fun _ => a)) else B2Err B2IllSorted
-                   | _, _ => check_sort st_sort v
-                   end) ;;
-            B2Ok (set_nth_state S idx (fun s => if seq op "init"
-                                               then {| ss_sort := ss_sort s; ss_init := Some v'; ss_next := ss_next s |}
-                                               else {| ss_sort := ss_sort s; ss_init := ss_init s; ss_next := Some v' |}))
-          else if seq op "output" then
-            _ <~ need toks 3 ;; v <~ s_node S (tokn toks 2) ;;
-            B2Ok (mkSem (m_sorts S) (m_nodes S) (m_statemap S) (m_nin S) (m_states S)
-                       (m_outputs S ++ [v]) (m_bads S) (m_constraints S))
-          else if seq op "bad" || seq op "constraint" then
-            _ <~ need toks 3 ;; v <~ s_node S (tokn toks 2) ;;
-            if negb (ty_eqb (sort_of_value v) (TBV 1)) then B2Err B2PropWidth
-            else if seq op "bad" then
-              B2Ok (mkSem (m_sorts S) (m_nodes S) (m_statemap S) (m_nin S) (m_states S)
-                         (m_outputs S) (m_bads S ++ [v]) (m_constraints S))
-            else
-              B2Ok (mkSem (m_sorts S) (m_nodes S) (m_statemap S) (m_nin S) (m_states S)
-                         (m_outputs S) (m_bads S) (m_constraints S ++ [v]))
-          else if seq op "zero" || seq op "one" || seq op "ones" || seq op "const" || seq op "constd" || seq op "consth" then
-            _ <~ need toks 3 ;; t <~ s_sort S (tokn toks 2) ;;
-            match t with
-            | TArr _ _ => B2Err B2IllSorted
-            | TBV w =>
-                a <~ (if seq op "zero" then B2Ok 0
-                      else if seq op "one" then B2Ok 1
-                      else if seq op "ones" then B2Ok (2 ^ w - 1)
-                      else
-                        _ <~ need toks 4 ;;
-                        sem_const (if seq op "const" then 2 else if seq op "constd" then 10 else 16) w (tokn toks 3)) ;;
-                B2Ok (add_node S id (VBV w a))
-            end
-          else if is_unary op then
-            _ <~ need toks 4 ;; t <~ s_sort S (tokn toks 2) ;; a <~ s_node S (tokn toks 3) ;;
-            r <~ sem_unary op toks a ;; r' <~ check_sort t r ;; B2Ok (add_node S id r')
-          else if is_binary op then
-            _ <~ need toks 5 ;; t <~ s_sort S (tokn toks 2) ;;
-            a <~ s_node S (tokn toks 3) ;; b <~ s_node S (tokn toks 4) ;;
-            r <~ sem_binary op a b ;; r' <~ check_sort t r ;; B2Ok (add_node S id r')
-          else if seq op "ite" || seq op "write" then
-            _ <~ need toks 6 ;; t <~ s_sort S (tokn toks 2) ;;
-            a <~ s_node S (tokn toks 3) ;; b <~ s_node S (tokn toks 4) ;; c <~ s_node S (tokn toks 5) ;;
-            r <~ sem_ternary op a b c ;; r' <~ check_sort t r ;; B2Ok (add_node S id r')
+          else if seq op "sort" then sem_sort_line S toks id
+          else if seq op "input" then sem_input_line val S toks id
+          else if seq op "state" then sem_state_line val S toks id
+          else if seq op "init" then sem_init_next_line S toks true
+          else if seq op "next" then sem_init_next_line S toks false
+          else if seq op "output" then sem_output_line S toks
+          else if seq op "bad" then sem_prop_line S toks true
+          else if seq op "constraint" then sem_prop_line S toks false
+          else if seq op "zero" || seq op "one" || seq op "ones" || seq op "const" || seq op "constd" || seq op "consth"
+               then sem_const_line S toks id op
+          else if is_unary op then sem_unary_line S toks id op
+          else if is_binary op then sem_binary_line S toks id op
+          else if seq op "ite" || seq op "write" then sem_ternary_line S toks id op
           else B2Err B2Syntax
       | _ => B2Err B2Syntax
       end
